@@ -1,5 +1,5 @@
 (* Dispatcher used by the correspondence drivers: function number -> wire -> wire. *)
-From DD Require Import Base.Wire Model.Lexer Model.Writer Spec.StdReader Run.NodeWire Run.CheckWire Run.OptWire Run.TypeWire Run.RwWire Run.SchedWire Run.CoreWire Run.DdTopWire Run.MoreWire1 Run.MoreWire2 Run.MoreWire3 Run.MoreWire4 Run.DeclWire Run.RelWire.
+From DD Require Import Base.Wire Model.Lexer Model.Writer Spec.StdReader Run.NodeWire Run.CheckWire Run.OptWire Run.TypeWire Run.RwWire Run.SchedWire Run.CoreWire Run.DdTopWire Run.MoreWire1 Run.MoreWire2 Run.MoreWire3 Run.MoreWire4 Run.DeclWire Run.RelWire Run.ConseqWire.
 
 Definition r_lexeme (w : wire) : lexeme :=
   match w with WN 0%Z => LPar | WN _ => RPar | WL _ => Tok (r_str w) end.
@@ -32,6 +32,7 @@ Definition dispatch (f : Z) (w : wire) : wire :=
          else if (Z.leb 130 f && Z.ltb f 140)%Z then dispatch_more4 f w
          else if (Z.leb 140 f && Z.ltb f 150)%Z then dispatch_decl f w
          else if (Z.leb 150 f && Z.ltb f 160)%Z then dispatch_rel f w
+         else if (Z.leb 160 f && Z.ltb f 170)%Z then dispatch_conseq f w
          else if (Z.leb 59 f && Z.ltb f 80)%Z then dispatch_rw f w
          else if (Z.leb 51 f && Z.ltb f 59)%Z then dispatch_smtlib f w
          else if (Z.eqb f 45)%Z then dispatch_cli f w
